@@ -14,6 +14,8 @@ import SoyVerif.Ops.Value
 import SoyVerif.Ops.Msg
 import SoyVerif.Ops.Lexer
 import SoyVerif.Ops.FileParser
+import SoyVerif.Ops.Eval
+import SoyVerif.Ops.EvalSpec
 
 open SoyVerif SoyVerif.Ops
 
@@ -27,7 +29,9 @@ def allOps : List Op :=
   Ops.Escape.ops ++
   Ops.Value.ops ++
   Ops.Msg.ops ++
-  Ops.Lexer.ops
+  Ops.Lexer.ops ++
+  Ops.Eval.ops ++
+  Ops.EvalSpec.ops
 
 def handle (op : String) (f : List String) : String :=
   match allOps.find? (·.1 == op) with
